@@ -878,13 +878,22 @@ func vsOfShape(d string) (*conf_v1.VirtualServer, error) {
 	case '3':
 		vs.Spec.Upstreams = []conf_v1.Upstream{upstreamOf(p[0])}
 		vs.Spec.Routes = []conf_v1.Route{routeOf(passRoute)}
+	case '4': // one route of path kind p[0] (0 prefix, 1 exact, 2 regex) that only references the VirtualServerRoute
+		if p[0] < '0' || p[0] > '2' {
+			return nil, fmt.Errorf("bad VirtualServer shape code %q", d)
+		}
+		vs.Spec.Upstreams = []conf_v1.Upstream{upstreamOf('0')}
+		vs.Spec.Routes = []conf_v1.Route{{Path: refPaths[1+int(p[0]-'0')], Route: "default/z-vsr"}}
 	default:
 		return nil, fmt.Errorf("bad VirtualServer shape code %q", d)
 	}
 	return vs, nil
 }
 
-func vsrOfShape(d string) (*conf_v1.VirtualServerRoute, error) {
+// vsrOfShape: the subroute paths are the path of the referencing VirtualServer route of prior
+// state ctx (refPaths), except for kind 5 (another path); kind 4 has two subroutes.
+func vsrOfShape(d string, ctx int) (*conf_v1.VirtualServerRoute, error) {
+	base := refPaths[ctx]
 	if len(d) != 14 || d[0] != '1' {
 		return nil, fmt.Errorf("bad VirtualServerRoute shape code %q", d)
 	}
@@ -898,8 +907,24 @@ func vsrOfShape(d string) (*conf_v1.VirtualServerRoute, error) {
 	case '3':
 		v.Spec.Upstreams = []conf_v1.Upstream{upstreamOf(p[0])}
 		v.Spec.Subroutes = []conf_v1.Route{routeOf(passRoute)}
+	case '4':
+		v.Spec.Upstreams = []conf_v1.Upstream{upstreamOf('0')}
+		v.Spec.Subroutes = []conf_v1.Route{routeOf(passRoute), routeOf(passRoute)}
+	case '5':
+		v.Spec.Upstreams = []conf_v1.Upstream{upstreamOf('0')}
+		v.Spec.Subroutes = []conf_v1.Route{routeOf(passRoute)}
 	default:
 		return nil, fmt.Errorf("bad VirtualServerRoute shape code %q", d)
+	}
+	for i := range v.Spec.Subroutes {
+		switch {
+		case d[1] == '5':
+			v.Spec.Subroutes[i].Path = "/other"
+		case i == 0:
+			v.Spec.Subroutes[i].Path = base
+		default:
+			v.Spec.Subroutes[i].Path = base + "/2"
+		}
 	}
 	return v, nil
 }
@@ -1110,7 +1135,30 @@ func listenerVS() *conf_v1.VirtualServer {
 }
 
 // crdPrior returns the objects of prior state ctx of a family.
-func crdPrior(fam string, ctx int) []interface{} {
+// kindPath: the route path of a kind (0 none/prefix, 1 prefix, 2 exact, 3 regex for the
+// VirtualServerRoute prior states; see refPaths)
+var refPaths = []string{"/r", "/r", "=/r", "~ ^/r"}
+
+// partnerVSR: the stored VirtualServerRoute default/z-vsr of the VirtualServer prior states 3-6:
+// no subroutes; one subroute with the given path; one subroute with another path; two subroutes
+func partnerVSR(ctx int, path string) *conf_v1.VirtualServerRoute {
+	v := &conf_v1.VirtualServerRoute{ObjectMeta: meta("z-vsr", 3), Spec: conf_v1.VirtualServerRouteSpec{IngressClass: "nginx", Host: host1}}
+	sub := func(p string) conf_v1.Route { return conf_v1.Route{Path: p, Action: &conf_v1.Action{Pass: "u"}} }
+	switch ctx {
+	case 3:
+		return v
+	case 4:
+		v.Spec.Subroutes = []conf_v1.Route{sub(path)}
+	case 5:
+		v.Spec.Subroutes = []conf_v1.Route{sub("/other")}
+	case 6:
+		v.Spec.Subroutes = []conf_v1.Route{sub(path), sub(path + "/2")}
+	}
+	v.Spec.Upstreams = []conf_v1.Upstream{upstreamOf('0')}
+	return v
+}
+
+func crdPrior(fam string, ctx int, obj interface{}) []interface{} {
 	switch fam {
 	case "vs":
 		switch ctx {
@@ -1118,10 +1166,18 @@ func crdPrior(fam string, ctx int) []interface{} {
 			return []interface{}{olderVS(false, nil)}
 		case 2:
 			return []interface{}{gcObject(gcListeners())}
+		case 3, 4, 5, 6:
+			path := "/r"
+			if vs, ok := obj.(*conf_v1.VirtualServer); ok && len(vs.Spec.Routes) > 0 {
+				path = vs.Spec.Routes[0].Path
+			}
+			return []interface{}{partnerVSR(ctx, path)}
 		}
 	case "vsr":
-		if ctx == 1 {
-			return []interface{}{olderVS(true, nil)}
+		if ctx >= 1 {
+			vs := olderVS(true, nil)
+			vs.Spec.Routes[0].Path = refPaths[ctx]
+			return []interface{}{vs}
 		}
 	case "ts":
 		if ctx == 1 {
@@ -1164,19 +1220,19 @@ type famSpec struct {
 }
 
 var famSpecs = map[string]famSpec{
-	"vs":  {[]int{0, fCertMgr, fPlus, fPlus | fCertMgr}, []int{fAppProtect, fDos, fInternal, fSnippets, fTLSPass}, 3, 5},
-	"vsr": {[]int{0, fPlus}, []int{fAppProtect, fDos, fInternal, fSnippets, fCertMgr, fTLSPass}, 2, 5},
+	"vs":  {[]int{0, fCertMgr, fPlus, fPlus | fCertMgr}, []int{fAppProtect, fDos, fInternal, fSnippets, fTLSPass}, 7, 5},
+	"vsr": {[]int{0, fPlus}, []int{fAppProtect, fDos, fInternal, fSnippets, fCertMgr, fTLSPass}, 4, 5},
 	"ts":  {[]int{0, fTLSPass}, []int{fPlus, fAppProtect, fDos, fInternal, fSnippets, fCertMgr}, 2, 5},
 	"pol": {[]int{0, fAppProtect, fPlus, fPlus | fAppProtect}, []int{fDos, fInternal, fSnippets, fCertMgr, fTLSPass}, 1, 3},
 	"gc":  {[]int{0}, []int{fPlus, fAppProtect, fDos, fInternal, fSnippets, fCertMgr, fTLSPass}, 2, 5},
 }
 
-func crdObject(fam, d string) (interface{}, error) {
+func crdObject(fam, d string, ctx int) (interface{}, error) {
 	switch fam {
 	case "vs":
 		return vsOfShape(d)
 	case "vsr":
-		return vsrOfShape(d)
+		return vsrOfShape(d, ctx)
 	case "ts":
 		return tsOfShape(d)
 	case "pol":
@@ -1211,11 +1267,11 @@ func deepCopy(o interface{}) interface{} {
 	return o
 }
 
-func crdCtl(fam string, f, ctx int, viaSync bool) (*k8s.VerifC17, string, string) {
+func crdCtl(fam string, f, ctx int, viaSync bool, obj interface{}) (*k8s.VerifC17, string, string) {
 	c := newCtl(f)
 	fillSecrets(c)
 	m, s := guard(func() {
-		for _, o := range crdPrior(fam, ctx) {
+		for _, o := range crdPrior(fam, ctx, obj) {
 			store(c, o, viaSync)
 		}
 	})
@@ -1231,7 +1287,7 @@ func runCRDOnce(fam string, obj interface{}, f, ctx int, combo string, panics *[
 		out[stage] = '2'
 		*panics = append(*panics, PanicInfo{Combo: combo, Stage: name, Msg: msg, Site: site})
 	}
-	c, pm, ps := crdCtl(fam, f, ctx, false)
+	c, pm, ps := crdCtl(fam, f, ctx, false, obj)
 	if pm != "" { // storing the prior state (valid, admissible objects) panicked
 		for st := range out {
 			out[st] = '2'
@@ -1319,7 +1375,7 @@ func runCRDOnce(fam string, obj interface{}, f, ctx int, combo string, panics *[
 			}
 		}
 	}
-	c2, pm2, ps2 := crdCtl(fam, f, ctx, true)
+	c2, pm2, ps2 := crdCtl(fam, f, ctx, true, obj)
 	o3 := deepCopy(obj)
 	if pm2 != "" {
 		note(syncStage, "prior-state", pm2, ps2)
@@ -1331,7 +1387,7 @@ func runCRDOnce(fam string, obj interface{}, f, ctx int, combo string, panics *[
 
 func runCRDShape(p pool, fam string, id int, d string, thorough bool) Case {
 	cs := Case{Fam: fam, ID: id, Shape: d}
-	obj, err := crdObject(fam, d)
+	obj, err := crdObject(fam, d, 0)
 	if err != nil {
 		cs.Error = err.Error()
 		return cs
@@ -1358,7 +1414,15 @@ func runCRDShape(p pool, fam string, id int, d string, thorough bool) Case {
 		for _, fc := range spec.flagCombos {
 			for ctx := 0; ctx < spec.nctx; ctx++ {
 				combo := fmt.Sprintf("flags=%d ctx=%d", fc|other, ctx)
-				sb.WriteString(runCRDOnce(fam, obj, fc|other, ctx, combo, &cs.Panics))
+				o := obj
+				if fam == "vsr" { // the subroute paths follow the referencing route of the prior state
+					o, _ = crdObject(fam, d, ctx)
+				}
+				np := len(cs.Panics)
+				sb.WriteString(runCRDOnce(fam, o, fc|other, ctx, combo, &cs.Panics))
+				if len(cs.Panics) > np && cs.Object == nil { // the panicking object and its partner, for the replay file
+					cs.Object, _ = json.Marshal(map[string]interface{}{"object": o, "prior_state": crdPrior(fam, ctx, o)})
+				}
 			}
 		}
 		if si == 0 {
@@ -1369,9 +1433,6 @@ func runCRDShape(p pool, fam string, id int, d string, thorough bool) Case {
 	}
 	if len(cs.Panics) > 6 {
 		cs.Panics = cs.Panics[:6]
-	}
-	if len(cs.Panics) > 0 { // the panicking object itself, for the replay file
-		cs.Object, _ = json.Marshal(obj)
 	}
 	return cs
 }
@@ -1420,6 +1481,11 @@ func allCRDDescrs(fam string) []string {
 		}
 		for u := 0; u <= 9; u++ {
 			out = append(out, fmt.Sprintf("13%d", u)+z(11))
+		}
+		if fam == "vs" {
+			out = append(out, "140"+z(11), "141"+z(11), "142"+z(11))
+		} else {
+			out = append(out, "14"+z(12), "15"+z(12))
 		}
 	case "ts":
 		for l := 0; l < 3; l++ {
